@@ -1,4 +1,5 @@
 """C04 — Update-check flow: announced states and result match what happened."""
+import re
 from ..core import BV, strip, walk, fmt_t
 from .. import lib, guards, sm as smod
 from ..sm import reach, path, reach_in, reach_pf
@@ -141,6 +142,20 @@ def run(F, R):
     ecu = Y("StateChange", "ErrorCheckingForUpdate")
     only_under("ErrorCheckingForUpdate", ecu, err_exch + parse_err)
     always_under("ErrorCheckingForUpdate", ecu, err_exch + parse_err, stop=[req])
+    # .. and it is the last word of the check: "no usable response was obtained" cannot be followed by another attempt or
+    # by another state of the same check (an announcement made before the decision to retry would be followed by both);
+    # the parse-error event report that follows it is a request, but not an attempt
+    later_all = []
+    for y_ in ecu:
+        r_ = reach_pf(S, list(S.succ[y_]))
+        later = [x for x in reqs if x in r_ and x in L] + [x for x in Y("StateChange") if x in r_ and S.ev[x][2] != "ErrorCheckingForUpdate"]
+        if later:
+            later_all.append((y_, later))
+    p_ = path(S, list(S.succ[later_all[0][0]]), later_all[0][1]) if later_all else None
+    if ecu:
+        R.check("C04-R2", "terminal:ErrorCheckingForUpdate", not later_all, "after ErrorCheckingForUpdate the check ends: no further attempt, no other state (%d sites)" % len(ecu),
+                "after announcing ErrorCheckingForUpdate the check can go on to %s: %s" % (sorted(set(str(S.ev[x][1:]) for _, l_ in later_all for x in l_)), S.fmt_path(p_) if p_ else ""),
+                S.nodes[later_all[0][0]].loc() if later_all else None)
     nua = Y("StateChange", "NoUpdateAvailable")
     only_under("NoUpdateAvailable", nua, noupd)
     always_under("NoUpdateAvailable", nua, noupd)
@@ -219,6 +234,11 @@ def run(F, R):
         R.check("C04-R2", "denied-announces-no-state", not ys, "DeniedByPolicy announces no install state", "after DeniedByPolicy: %s" % sorted(ys, key=str), S.nodes[a].loc())
 
     # ---------------------------------------------------------------- R3 per-app action alignment
+    # "InstallationError iff any app's install failed": every installer result is inspected and every failure recorded
+    # (the rule is C05-R5's errors gate; a failure that is dropped before it is recorded is neither announced nor counted)
+    from . import c05 as _c05
+    from .. import report as _report
+    _c05.run(F, _report.SubsetAlias(R, {"C05-R5": "C04-R2"}, prefix="failures-recorded:", keys={"every-result-inspected", "failed-arm-always-collected", "errors-collects-failed-payload"}))
     R.rule("C04-R3", "result vectors are response.apps mapped 1:1 in order (no dropping adaptor); on the install path an app's action is the image of the next installer result iff its updatecheck status is Ok, else NoUpdate")
     _alignment(R, sm, hdr)
 
@@ -391,5 +411,9 @@ def _alignment(R, sm, hdr):
             else:
                 # plan-level outcomes: one uniform action for every listed app
                 vals = set(v for k, v in rows)
+                if any(not re.fullmatch(r"[A-Za-z_]+|(?:clone\()?param\d+(?:\.\d+)*\)?", v_) for v_ in vals):   # a variant, or one captured value for all apps
+                    # the action is looked up or computed (a map filled elsewhere, a helper): not a table this rule can read
+                    R.inconclusive("C04-R3", "table:" + key, "the per-app action is computed (%s), not chosen by a match on the response app and the installer result" % sorted(vals)[0][:80])
+                    continue
                 R.check("C04-R3", "uniform-table:" + key, len(rows) == 1 and all(not k for k, v in rows), "uniform action %s" % sorted(vals), "plan-level result is not uniform: %s" % pretty)
     R.floor("C04-R3", "constructions of the per-app result vector", n, 2)
